@@ -196,3 +196,8 @@ func (s SimCore) GetAnchorBlockWithFrame() (*hg.Block, *hg.Frame, error) {
 	return s.c.getAnchorBlockWithFrame()
 }
 func (s SimCore) SetAcceptedRound(r int) { s.c.acceptedRound = r }
+
+// AddTransactionsRaw appends to the transaction pool without taking coreLock:
+// for callers that already run under it (an application submitting from
+// inside its commit callback).
+func (s SimCore) AddTransactionsRaw(txs [][]byte) { s.c.addTransactions(txs) }
